@@ -35,10 +35,13 @@ class _Shim:
         self.budget = budget
         self.sweeps = 0        # "iteration" messages seen (all loops of the solve)
         self.steps = 0         # node Bellman steps seen
+        self.per_sweep = None  # optional callback run at every sweep start (trajectory sampling)
 
     def debug(self, msg, *a, **k):
         if type(msg) is str and msg.startswith("iteration "):
             self.sweeps += 1
+            if self.per_sweep is not None:
+                self.per_sweep()
             if self.budget is not None and self.sweeps > self.budget:
                 raise BudgetExceeded(f"more than {self.budget} sweeps")
 
